@@ -101,7 +101,7 @@ translations = {
 
 
 def decode_scene_id(scene_id):
-    match = scene_id_re.match(scene_id)
+    match = scene_id_re.fullmatch(scene_id)
     if match is None:
         raise ValueError(f"invalid scene id: {scene_id}")
 
